@@ -118,3 +118,73 @@ Proof.
   rewrite !map_map. simpl. apply level_split. intros d Hd. apply In_nth with (d := root_deme 0) in Hd as (i & Hi & <-).
   destruct Wf as (_ & Wf). exact (proj1 (Wf i Hi)).
 Qed.
+
+(* ---------------------------------------------------------------- no deme is printed twice *)
+Fixpoint up (ds : list deme) (i k : nat) : option nat :=
+  match k with O => Some i | S k' => match d_par (dnth i ds) with Some p => up ds p k' | None => None end end.
+
+Section Once.
+  Variables (c : cfg) (s : st).
+  Hypothesis W : WFT c s.
+  Let ds := demes s.
+
+  Lemma up_level : forall k i a, i < length ds -> up ds i k = Some a -> a < length ds /\ d_lvl (dnth i ds) = d_lvl (dnth a ds) + k.
+  Proof.
+    induction k as [|k IH]; intros i a Hi H; simpl in H; [injection H as <-; split; [assumption|lia]|].
+    destruct W as (_ & Wf). pose proof (Wf i Hi) as Wi. cbv zeta in Wi. fold ds in Wi. destruct Wi as (_ & _ & Wp).
+    destruct (d_par (dnth i ds)) as [p|]; [|discriminate]. destruct Wp as (_ & Hp & El & _).
+    destruct (IH p a ltac:(lia) H) as (A & B). split; [exact A|lia].
+  Qed.
+  Lemma dfs_up : forall f r i, In i (dfs f ds r) -> exists k, up ds i (S k) = Some r.
+  Proof.
+    induction f as [|f IH]; intros r i H; simpl in H; [destruct H|]. apply in_flat_map in H as (ch & Hk & Hi).
+    apply kids_spec in Hk as (Hc & Pc). destruct (Nat.eqb (d_meta (dnth ch ds)) 0); [destruct Hi|]. destruct Hi as [<-|Hi].
+    - exists 0. simpl. now rewrite Pc.
+    - destruct (IH ch i Hi) as (k & Hk). exists (S k). revert Hk. clear - Pc. revert i. induction (S k) as [|m IHm]; intros i Hk; simpl in *.
+      + injection Hk as ->. now rewrite Pc.
+      + destruct (d_par (dnth i ds)) as [p|]; [|discriminate]. apply IHm. exact Hk.
+  Qed.
+  Lemma up_unique i k k' a b : i < length ds -> up ds i k = Some a -> up ds i k' = Some b -> d_lvl (dnth a ds) = d_lvl (dnth b ds) -> a = b.
+  Proof.
+    intros Hi Ha Hb El. destruct (up_level k i a Hi Ha) as (_ & La). destruct (up_level k' i b Hi Hb) as (_ & Lb).
+    assert (k = k') as -> by lia. congruence.
+  Qed.
+  Lemma kids_NoDup r : NoDup (kids ds r).
+  Proof. unfold kids. apply ids_NoDup. Qed.
+
+  Theorem dfs_NoDup : forall f r, r < length ds -> NoDup (dfs f ds r).
+  Proof.
+    induction f as [|f IH]; intros r Hr; simpl; [constructor|].
+    assert (forall l, NoDup l -> (forall ch, In ch l -> In ch (kids ds r)) ->
+            NoDup (flat_map (fun ch => if Nat.eqb (d_meta (dnth ch ds)) 0 then [] else ch :: dfs f ds ch) l)) as K.
+    { induction l as [|ch l IHl]; intros ND Hin; simpl; [constructor|]. inversion ND as [|? ? Hni ND']; subst.
+      pose proof (proj1 (kids_spec ds r ch) (Hin ch (or_introl eq_refl))) as (Hc & Pc).
+      apply NoDup_app_intro.
+      - destruct (Nat.eqb (d_meta (dnth ch ds)) 0); [constructor|]. constructor; [|now apply IH].
+        intros Hs. apply dfs_up in Hs as (k & Hk). destruct (up_level (S k) ch ch Hc Hk) as (_ & L). lia.
+      - apply IHl; [exact ND'|intros x Hx; apply Hin; now right].
+      - (* a deme of ch's subtree is not in a sibling's subtree *)
+        intros x Hx Hx'. apply in_flat_map in Hx' as (ch' & Hch' & Hx').
+        pose proof (proj1 (kids_spec ds r ch') (Hin ch' (or_intror Hch'))) as (Hc' & Pc').
+        assert (ch <> ch') as Ne by (intros ->; contradiction).
+        assert (d_lvl (dnth ch ds) = d_lvl (dnth ch' ds)) as El.
+        { destruct W as (_ & Wf). pose proof (Wf ch Hc) as A. pose proof (Wf ch' Hc') as B. cbv zeta in A, B. fold ds in A, B.
+          rewrite Pc in A. rewrite Pc' in B. destruct A as (_ & _ & _ & _ & -> & _), B as (_ & _ & _ & _ & -> & _). reflexivity. }
+        assert (exists k, up ds x k = Some ch) as (k & Uk).
+        { destruct (Nat.eqb (d_meta (dnth ch ds)) 0); [destruct Hx|]. destruct Hx as [<-|Hx]; [exists 0; reflexivity|].
+          destruct (dfs_up _ _ _ Hx) as (k & Hk). eauto. }
+        assert (exists k, up ds x k = Some ch') as (k' & Uk').
+        { destruct (Nat.eqb (d_meta (dnth ch' ds)) 0); [destruct Hx'|]. destruct Hx' as [<-|Hx']; [exists 0; reflexivity|].
+          destruct (dfs_up _ _ _ Hx') as (k' & Hk'). eauto. }
+        assert (x < length ds) as Hxl.
+        { destruct (Nat.eqb (d_meta (dnth ch ds)) 0); [destruct Hx|]. destruct Hx as [<-|Hx]; [assumption|]. now apply dfs_sound in Hx. }
+        apply Ne. eapply up_unique; eauto. }
+    apply K; [apply kids_NoDup|auto].
+  Qed.
+  (* every displayed deme is displayed exactly once *)
+  Theorem lines_NoDup : NoDup (lines ds).
+  Proof.
+    unfold lines. destruct W as (L & _). fold ds in L. constructor; [|apply dfs_NoDup; lia].
+    intros H. apply dfs_up in H as (k & Hk). destruct (up_level (S k) 0 0 ltac:(lia) Hk) as (_ & E). lia.
+  Qed.
+End Once.
